@@ -1875,6 +1875,8 @@ class RT:
                 raise Unsupported("re.Pattern.%s on a symbolic string" % name)
             return fn(obj.pattern, a[0])
         if isinstance(obj, str):
+            if name == 'join' and a:
+                a = (list(a[0]),) + tuple(a[1:])        # (a generator argument is consumed once only)
             if any(is_sym(x) for x in a) or (name == 'join' and a and any(is_sym(x) for x in list(a[0]))) \
                or (name == 'format' and any(is_sym(x) for x in kw.values())):
                 if name == 'join':
